@@ -192,4 +192,4 @@ def cases(draw):
 
 
 def run_shard(col, k, nshards, tier, seed):
-    hyp.explore(col, cases(), judge, N[tier], seed)
+    hyp.explore(col, cases(), judge, N[tier], seed, shrink_key=lambda r: (r['kind'], r['site'][:40]))
